@@ -368,7 +368,8 @@ def analyse(ctx):
                         # compilation of the sub-expression it is part of - otherwise an unknown name compiles
                         if isinstance(ev_, str) and ev_.startswith('unresolved ') and ev_ != 'unresolved ?':
                             nm_ = ev_[len('unresolved '):]
-                            again = st.facts.get(('resolved', nm_)) or any(so[0] == 'compile' and so[2] and nm_.startswith(so[2]) for so in getattr(st, 'symops', []))
+                            again = st.facts.get(('resolved', nm_)) or any(so[0] == 'compile' and so[2] and nm_.startswith(so[2]) for so in getattr(st, 'symops', [])) \
+                                or any(so[0] == 'define' and so[2] == nm_ for so in getattr(st, 'symops', []))      # ... or declares it
                             if not again:
                                 viols.setdefault(('R09.4', meth, tr, 'the name %s was not found, and the construct compiles without looking it up again' % nm_), None)
                     arms.append({'symops': list(getattr(st, 'symops', [])), 'method': meth, 'trace': tr, 'dh': repr(st.h) if st.reach else None, 'last': st.last, 'reach': st.reach,
